@@ -64,11 +64,60 @@ def run(ctx):
     c09 = importlib.util.module_from_spec(spec)
     spec.loader.exec_module(c09)
     c09.qruntime_part(ctx, vlib.go_build_test(ctx, "c09"), quick)
+    taskrunner(ctx, quick)
     ctx.cov["binding_selftest"].append({"see": "C05/C09 self-tests use the same judges (TraceRuntime, TraceBackoff)"})
     ctx.assumptions += [
         "goroutine leak = process goroutine count after Run returned and the harness stopped exceeds the count before the runtime was built",
         "panics are raised inside reconcile / Run / hook / task bodies only",
     ]
+
+
+def taskrunner(ctx, quick):
+    """(f) pkg/task: TaskRunner.tla checked exhaustively; random walks of it replayed on a real task.Runner (start / stop /
+    reconcile / stop-all, task bodies finishing, failing and panicking), the set of running task instances judged after
+    every command, no goroutine left after Stop."""
+    vlib.mc(ctx, "TaskRunner", "MC_TaskRunner.cfg", timeout=1200)
+    n = 150 if quick else 3000
+    behs = vlib.gen_behaviours(ctx, "GenTaskRunner", "GenTaskRunner.cfg", num=n, depth=200, name="gen-taskrunner",
+                               env={"GEN_DEPTH": 20 if quick else 35})[:n]
+    ctx.cov["behaviours_replayed"] += len(behs)
+    ctx.cov["taskrunner_behaviours"] = len(behs)
+    ctx.sample({"taskrunner_commands_head": behs[0][:6]})
+    inp = os.path.join(ctx.scratch, "tbehs.json")
+    json.dump(behs, open(inp, "w"))
+    binary = vlib.go_build_test(ctx, "c16")
+    out = os.path.join(ctx.scratch, "taskrunner.ndjson")
+    vlib.go_run(ctx, binary, "TestTaskRunner", {"VERIF_IN": inp, "VERIF_OUT": out}, timeout=2400)
+    recs = vlib.read_ndjson(out)
+    traces = vlib.split_traces(recs)
+    mism, consumed, r = vlib.validate(ctx, "TraceTaskRunner", "TraceTaskRunner.cfg", out, timeout=1800, name="val-taskrunner")
+    if consumed != len(recs):
+        raise vlib.Infra("TraceTaskRunner consumed %s of %d\n%s" % (consumed, len(recs), r.out[-2000:]))
+    details = [x for x in r.out.splitlines() if x.startswith('<<"DETAIL"')]
+    ctx.cov["traces_validated_against_impl"] += len(traces)
+    ctx.cov["taskrunner_commands_judged"] = len([x for x in recs if x["ev"] == "cmd"])
+    bad = set()
+    for i, line in enumerate(mism):
+        m = re.match(r'<<"MISMATCH", "([^"]*)", (\d+), "([^"]*)">>', line)
+        tid, lno, what = m.group(1), int(m.group(2)), m.group(3)
+        bad.add(tid)
+        ctx.violation("taskrunner/%s/%s" % (what, recs[lno - 1].get("c", "")), "%s at line %d: %s" % (what, lno, (details[i] if i < len(details) else "")[:600]),
+                      {"tid": tid, "line": lno, "behaviour": behs[int(tid.split("#")[1])],
+                       "trace": [t for t in traces if t[0] == tid][0][1]})
+    import copy
+    for tid, t in traces:
+        idx = [i for i, x in enumerate(t) if x["ev"] == "cmd" and x["live"]]
+        if tid in bad or not idx:
+            continue
+        t2 = copy.deepcopy(t)
+        t2[idx[0]]["live"] = t2[idx[0]]["live"][1:]
+        p = os.path.join(ctx.scratch, "tself.ndjson")
+        vlib.write_ndjson(p, t2)
+        m2, _, _ = vlib.validate(ctx, "TraceTaskRunner", "TraceTaskRunner.cfg", p, name="selftest-taskrunner")
+        ctx.cov["binding_selftest"].append({"corrupted": "one running task instance dropped from the log", "rejected": len(m2) > 0})
+        if not m2:
+            raise vlib.Infra("binding self-test: corrupted task-runner trace accepted")
+        break
 
 
 if __name__ == "__main__":
